@@ -271,7 +271,7 @@ def check_case(case) -> Result:
         res.bad("C19/table-columns", f"missing columns {missing}")
         return res
     p_col = np.asarray(df["pressure"], float)
-    if p_col.shape != want_p.shape or not np.array_equal(p_col, want_p):
+    if p_col.shape != want_p.shape or not np.allclose(p_col, want_p, rtol=1e-13, atol=0.0):
         res.bad("C19/table-pressure-grid", f"pressure column has {p_col.size} rows [{p_col[:1]}..{p_col[-1:]}], expected arange(10, {pmax!r}, 10) with {want_p.size} rows")
         return res
     sg = float(comp["sg"])
